@@ -47,6 +47,7 @@ BOUNDARY_CLASSES = [
     ("inside-braces-edge", lambda a, b: a == "{" or b == "}"),
     ("around-parenthesis", lambda a, b: a in "()" or b in "()"),
     ("after-define-line", lambda a, b: a.startswith("#define")),
+    ("before-bracket", lambda a, b: b.startswith("[")),
 ]
 
 
@@ -398,6 +399,18 @@ def _run_aliases(case, ctx, m):
         if cs.resolve(a0) is not target or cs.resolve(names[-1]) is not target:
             raise Violation("alias-rebound", f"an accepted same-target re-declaration changed what {a0}/{names[-1]} resolve to")
         ctx.count("aliases:redeclared-by-definition")
+    # derived targets (pointer, array): the same declaration again is the same target, another one is not
+    for decl, other_decl in (("typedef {b} *PT9;", "typedef {o} *PT9;"), ("typedef {b} AT9[3];", "typedef {b} AT9[4];"), ("typedef {b} *PA9[2];", "typedef {b} **PA9[2];"), ("typedef char ST9[];", "typedef wchar ST9[];")):
+        bname = base if base != "S" else "S"
+        first = lib(cs.load, decl.format(b=bname, o=other) + "\n")
+        if isinstance(first, Err):
+            raise Violation("alias-rejected", f"{decl.format(b=bname, o=other)!r}: {first}", first.where)
+        again = lib(cs.load, decl.format(b=bname, o=other) + "\n")
+        if isinstance(again, Err):
+            raise Violation("same-target-redeclaration-rejected", f"{decl.format(b=bname, o=other)!r} loaded a second time: {again}", again.where)
+        diff_ = lib(cs.load, other_decl.format(b=bname, o=other) + "\n")
+        if not isinstance(diff_, Err):
+            raise Violation("different-target-redeclaration-accepted", f"{other_decl.format(b=bname, o=other)!r} was accepted after {decl.format(b=bname, o=other)!r}")
     ctx.count(f"aliases:depth:{case['depth']}")
     ctx.count("aliases:via:" + case["via"])
     ctx.mark_nontrivial(case)
